@@ -79,6 +79,18 @@ CLAIMED.update({
             "DESIGN.md §3 C14", "switch-table extraction by abstract interpretation, argument-provenance (wiring) checks over SSA, symbolic scan-order evaluation"),
 })
 
+CLAIMED.update({
+    "C19": ("other",
+            "Decides the shape-visible necessary conditions of total text handling: no error/ok result of the decoding API is dropped unless the "
+            "argument is a constant or an encoder output; every placement made while decoding a FEN is on a square proven <= 63 by the path's "
+            "facts (the uint8 cursor is input-driven); every slice index in the parsers is dominated by a sufficient length test; every explicit "
+            "panic reachable from the text entry points (call graph) is unreachable by argument - the piece values passed at every call site are "
+            "enumerated back to package-level lists and lie in the handled set; Engine.Move mutates the game only by pushing a generated move "
+            "equal (origin, destination, promotion) to the parsed text and reports success iff that push succeeded; ParseMove accepts only 4/5 "
+            "runes and officer promotions. Acceptance == legality depends on C01 and is not decided here.",
+            "DESIGN.md §3 C19", "error-discipline and taint/bound rules over go/ssa (abstract interpretation of the FEN placement loop, dominance-based length facts, call-graph reachability with argument-set proofs)"),
+})
+
 NOT_APPLICABLE = {
     "C11": "Transparency of the transposition table is a numeric equality between two complete searches over all positions x depths x table sizes x search sequences; no sound static abstraction in reach bounds it. Its shape-visible clauses are decided under C12 (no store after cancellation, exact bound only after a full loop), C04 (root exits) and C17 (slot discipline).",
 }
